@@ -1,5 +1,5 @@
 (* C13 — Parsing partitions the docstring: each line is text, source or want, once. *)
-From XD Require Import Model.Base Model.Parser Spec.Partition Spec.Labels Proofs.ParserProofs Proofs.ChunkProofs Proofs.LabelProofs.
+From XD Require Import Model.Base Model.Parser Spec.Partition Spec.Labels Proofs.ParserProofs Proofs.ChunkProofs Proofs.GroupLocal Proofs.LabelProofs.
 
 (* the labeller emits exactly one labelled line per docstring line, in order, each
    identical to the input line up to the display prefix inserted by the triple-quote
@@ -127,3 +127,23 @@ Theorem C13_labels_example :
   label_go demo_bal (concat (map block_lines demo_blocks)) (mkL TEXT O None) = Ok (intended demo_blocks).
 Proof. exact demo_labels. Qed.
 Print Assumptions C13_labels_example.
+
+(* the chunks follow the labels: the labelled lines, in order, are cut into chunks each of which is a run of text lines,
+   or a non-empty run of source/continuation lines followed by a (possibly empty) run of want lines -- so "the lines
+   labelled want are the want of the source lines before them" holds for every labelling *)
+Theorem C13_chunks_follow_labels : forall ll gs, group_lines ll = Ok gs ->
+  exists lcs, gs = map forget lcs /\ concat (map litems lcs) = ll /\ Forall LChunkOK lcs.
+Proof. exact group_lines_labelled. Qed.
+Print Assumptions C13_chunks_follow_labels.
+(* grouping is local: where the kind of line changes (text / source / want) and the next line is not a want, the chunks
+   of the whole are the chunks of what is above followed by the chunks of what is below *)
+Theorem C13_grouping_local : forall A (yi : label * str) B' d,
+  A <> [] -> class_of (fst (last A d)) <> class_of (fst yi) -> fst yi <> WANT ->
+  group_lines (A ++ yi :: B') = both (group_lines A) (group_lines (yi :: B')).
+Proof. exact group_lines_app. Qed.
+Print Assumptions C13_grouping_local.
+(* a run of text lines is one text chunk *)
+Theorem C13_text_run_one_chunk : forall (t : label * str) T, AllClass KText (t :: T) ->
+  group_lines (t :: T) = Ok [TextChunk (map snd (t :: T))].
+Proof. exact group_lines_text. Qed.
+Print Assumptions C13_text_run_one_chunk.
